@@ -172,7 +172,7 @@ def check_c17(ctx):
     # operator level: Shutdown in the middle of a run of the real operator (queues idle, in a handler, events and ticks
     # still arriving): no execution may start afterwards
     import op
-    n, st = op.e2e(ctx, ("C17/",), ["A", "D"], ctx.pick(30, 300), depth=45, sdafter=ctx.pick(11, 10))
+    n, st = op.e2e(ctx, ("C17/",), ["A", "D"], ctx.pick(30, 300), depth=45, sdafter=ctx.pick(11, 10), nrandom=ctx.pick(5, 30))
     ctx.log("operator level: %d behaviours with Shutdown replayed on the real operator: %s" % (n, st))
     ctx.cov["traces_validated_against_impl"] += n
     ctx.cov["operator_level"] = st
